@@ -215,10 +215,10 @@ Section Real.
     intros Hn. unfold enlarge. rewrite Hn. destruct (Nat.eqb (psize (s_pop _ _ _ st)) n) eqn:He.
     - apply Nat.eqb_eq in He. exact He.
     - unfold resample.
-      pose proof (Hres_size (s_g _ _ _ st) (s_pop _ _ _ st) (one NumR) n) as Hr.
-      destruct (resample_o (s_g _ _ _ st) (s_pop _ _ _ st) (one NumR) (Some n)) as [p1 g1]. cbn [fst] in Hr.
-      pose proof (Hmut_size g1 p1 (one NumR) true) as Hm.
-      destruct (mutate_o g1 p1 (one NumR) true) as [p2 g2]. cbn [fst] in *. congruence.
+      pose proof (Hres_size (s_g _ _ _ st) (s_pop _ _ _ st) (s_beta _ _ _ st) n) as Hr.
+      destruct (resample_o (s_g _ _ _ st) (s_pop _ _ _ st) (s_beta _ _ _ st) (Some n)) as [p1 g1]. cbn [fst] in Hr.
+      pose proof (Hmut_size g1 p1 (s_beta _ _ _ st) true) as Hm.
+      destruct (mutate_o g1 p1 (s_beta _ _ _ st) true) as [p2 g2]. cbn [fst] in *. congruence.
   Qed.
 
   Lemma finish_state_idem o st : FSTATE o (FSTATE o st) = FSTATE o st.
